@@ -393,6 +393,32 @@ def u_efron_vs_breslow(h, tm, s):
         h.ensure('raw_hessian[%d]' % i, h.eq(ha[i], hb[i]))
 
 
+def u_efron_vs_breslow_symtimes(h, s):
+    """as u_efron_vs_breslow, but the occurrence times are SYMBOLIC and only assumed pairwise distinct (any order, any
+    spacing, any offset): every place where the datafit decides "same time" is exercised for all distinct times, not for
+    the integer catalogue only"""
+    Dm = D()
+    n = len(s)
+    tm = h.vec('t', n)
+    for i in range(n):
+        for k in range(i):
+            h.assume(tm[i] != tm[k])
+    y = h.arr([[tm[i], float(s[i])] for i in range(n)])
+    a = h.datafit(Dm.Cox, use_efron=True)
+    b = h.datafit(Dm.Cox, use_efron=False)
+    Xd = h.const(np.zeros((n, 1)))
+    a.initialize(Xd, y)
+    b.initialize(Xd, y)
+    Xw = h.vec('Xw', n)
+    w = h.vec('w', 1)
+    va = a.value(y, w, Xw)
+    h.observe('value', va)
+    h.ensure('value', h.eq(va, b.value(y, w, Xw)))
+    ga, gb = a.raw_grad(y, Xw), b.raw_grad(y, Xw)
+    for i in range(n):
+        h.ensure('raw_grad[%d]' % i, h.eq(ga[i], gb[i]))
+
+
 def u_group_vs_plain_datafit(h, which, layout):
     Dm = D()
     n, p = 3, 2
@@ -492,6 +518,9 @@ def units(tier):
                 continue
             us.append(Unit('C14/K/efron-vs-breslow[tm=%s,s=%s]' % (''.join(map(str, tm)), ''.join(map(str, s))),
                            u_efron_vs_breslow, dict(tm=tm, s=list(s)), wall_s=60))
+    for sv in ([1, 1], [1, 0], [0, 1]) + (() if q else ([1, 1, 1], [1, 0, 1])):
+        us.append(Unit('C14/K/efron-vs-breslow[symbolic distinct times,s=%s]' % ''.join(map(str, sv)),
+                       u_efron_vs_breslow_symtimes, dict(s=list(sv)), wall_s=90))
     for which in ('Quadratic', 'Logistic'):
         for li, lay in enumerate([[[0, 1]], [[1], [0]]]):
             us.append(Unit('C14/K/group-datafit-vs-plain[%s,layout=%d]' % (which, li), u_group_vs_plain_datafit,
